@@ -384,6 +384,11 @@ func (fr *frame) index(x *ssa.Index, st *bstate) {
 	// x.X is a string, array value or type param
 	if kindOf(x.X.Type()) == KString {
 		f.abstr["Index-string"]++
+		if f.sweep["index"] {
+			idx := fr.val(x.Index).Tm
+			f.oblige(st, fmt.Sprintf("%s#string-index-in-range:%s", fnShortName(fr.fn), valueLabel(x.X)), "safety", f.sweepTags,
+				and(app("<=", "0", idx), app("<", idx, app("str.len", fr.val(x.X).Tm))), "string index in range", posStr(f.e.fset, x.Pos()))
+		}
 	} else {
 		f.abstr["Index-array"]++
 	}
@@ -400,6 +405,10 @@ func (fr *frame) lookup(x *ssa.Lookup, st *bstate) {
 	if !isMap {
 		// string index
 		f.abstr["Lookup-string"]++
+		if f.sweep["index"] && m.K == KString {
+			f.oblige(st, fmt.Sprintf("%s#string-index-in-range:%s", fnShortName(fr.fn), valueLabel(x.X)), "safety", f.sweepTags,
+				and(app("<=", "0", k.Tm), app("<", k.Tm, app("str.len", m.Tm))), "string index in range", posStr(f.e.fset, x.Pos()))
+		}
 		v := f.freshVal("sidx", x.Type())
 		f.assumeTypeRange(st, v)
 		fr.vals[x] = v
@@ -531,6 +540,10 @@ func (fr *frame) slice(x *ssa.Slice, st *bstate) {
 		hi := app("str.len", s)
 		if x.High != nil {
 			hi = fr.val(x.High).Tm
+		}
+		if f.sweep["index"] {
+			f.oblige(st, fmt.Sprintf("%s#string-slice-bounds:%s", fnShortName(fr.fn), valueLabel(x.X)), "safety", f.sweepTags,
+				and(app("<=", "0", lowT), app("<=", lowT, hi), app("<=", hi, app("str.len", s))), "string slice bounds in range", posStr(f.e.fset, x.Pos()))
 		}
 		fr.vals[x] = Val{K: KString, T: x.Type(), Tm: app("str.substr", s, lowT, app("-", hi, lowT))}
 		f.exact["Slice"]++
